@@ -9,6 +9,7 @@ CONSTANTS
   MaxBurst = 1
   BurstReps = 3
   Opts = {}
+  Anns = {"adderr", "mapcont"}
   Depth = 7
 INVARIANT Inv
 CONSTRAINT EmitAll
